@@ -79,7 +79,19 @@ type UserBindEngine struct {
 	ts     *schema.TypeSystem
 	protos map[string]schema.TypedPrototype
 	salt   uint64
+	// AllIntKinds (C19): a schema Int is bound to any of int8 … int64, int, uint8 … uint64, uint, and an
+	// int-represented enum to a string or any of these kinds (a kind that can hold at least one member's
+	// representation int).  Off (C08, C09, C13): int64 / int, and string / int32 / int64 / int.
+	AllIntKinds bool
 }
+
+var allIntKindTypes = []reflect.Type{
+	reflect.TypeOf(int8(0)), reflect.TypeOf(int16(0)), reflect.TypeOf(int32(0)), reflect.TypeOf(int64(0)), reflect.TypeOf(int(0)),
+	reflect.TypeOf(uint8(0)), reflect.TypeOf(uint16(0)), reflect.TypeOf(uint32(0)), reflect.TypeOf(uint64(0)), reflect.TypeOf(uint(0)),
+}
+
+// GoType is the Go type this engine binds to the schema type (a function of the type's name and the engine's salt).
+func (e *UserBindEngine) GoType(t schema.Type) reflect.Type { return e.goType(t) }
 
 func NewUserBindEngine(ts *schema.TypeSystem, salt string) *UserBindEngine {
 	h := uint64(1469598103934665603)
@@ -108,6 +120,9 @@ func (e *UserBindEngine) goType(t schema.Type) reflect.Type {
 	case *schema.TypeBool:
 		return reflect.TypeOf(false)
 	case *schema.TypeInt:
+		if e.AllIntKinds {
+			return allIntKindTypes[e.pick("int:"+typ.Name(), len(allIntKindTypes))]
+		}
 		return []reflect.Type{reflect.TypeOf(int64(0)), reflect.TypeOf(int(0))}[e.pick("int:"+typ.Name(), 2)]
 	case *schema.TypeFloat:
 		return reflect.TypeOf(float64(0))
@@ -120,6 +135,26 @@ func (e *UserBindEngine) goType(t schema.Type) reflect.Type {
 	case *schema.TypeAny:
 		return reflect.TypeOf((*datamodel.Node)(nil)).Elem()
 	case *schema.TypeEnum:
+		if stg, ok := typ.RepresentationStrategy().(schema.EnumRepresentation_Int); ok && e.AllIntKinds {
+			if e.pick("enum-as-string:"+typ.Name(), 4) == 0 {
+				return reflect.TypeOf("")
+			}
+			rt := allIntKindTypes[e.pick("enum:"+typ.Name(), len(allIntKindTypes))]
+			holdsOne := false
+			z := reflect.Zero(rt)
+			for _, i := range stg {
+				switch rt.Kind() {
+				case reflect.Uint, reflect.Uint8, reflect.Uint16, reflect.Uint32, reflect.Uint64:
+					holdsOne = holdsOne || (i >= 0 && !z.OverflowUint(uint64(i)))
+				default:
+					holdsOne = holdsOne || !z.OverflowInt(int64(i))
+				}
+			}
+			if !holdsOne {
+				return reflect.TypeOf(int64(0)) // the kind could hold no member at all
+			}
+			return rt
+		}
 		if _, ok := typ.RepresentationStrategy().(schema.EnumRepresentation_Int); ok {
 			return []reflect.Type{reflect.TypeOf(""), reflect.TypeOf(int32(0)), reflect.TypeOf(int64(0)), reflect.TypeOf(int(0))}[e.pick("enum:"+typ.Name(), 4)]
 		}
